@@ -43,26 +43,21 @@ macro_rules! c13_safe_join {
 c13_safe_join!(c13_ws_safe_join_len2, 2, 6);
 c13_safe_join!(c13_ws_safe_join_len3, 3, 7);
 
-// C13 -- the checkpoint resolver: a RELATIVE request string is turned into a root-relative path that is recorded in
-// the checkpoint and later joined onto both the checkpoint's files/ directory and the workspace root. Ok(rel) must
-// therefore never contain a `..` segment (the input is relative here; absolute inputs inside the root are legal).
-macro_rules! c13_to_relative {
-    ($name:ident, $len:expr, $unwind:expr) => {
+// C13 -- the checkpoint resolver Workspace::to_relative. A symbolic-bytes harness (2 bytes over {'.','a'}, root "/")
+// FOUND the defect fixed in 675a19f (the request ".." was accepted, 349 s). On the repaired code the same harness
+// no longer finishes (join + strip_prefix + the added component scan re-parse a heap path: out of memory / solver
+// errors at 24 GB), so it cannot be registered. What remains is a regression guard over CONCRETE request strings
+// (shape = the string; nothing symbolic): every lexical class that reaches outside the root must be refused, every
+// legal request accepted. This is symbolic execution of the real function on fixed inputs -- weaker than the other
+// resolver families and stated as such in the claim.
+macro_rules! c13_torel_shape {
+    ($name:ident, $input:expr, $escapes:expr) => {
         #[kani::proof]
-        #[kani::unwind($unwind)]
+        #[kani::unwind(24)]
         #[kani::stub(std::fmt::format, stub_fmt_format)]
         fn $name() {
-            let b = sym_path_bytes::<$len>();
-            // slash-free strings only: with '/' in the alphabet the join + strip_prefix + re-parse of the heap path
-            // runs out of memory (62 GB) even at 2 bytes
-            let mut i = 0;
-            while i < $len {
-                kani::assume(b[i] != b'/');
-                i += 1;
-            }
-            let raw = unsafe { core::str::from_utf8_unchecked(&b) };
-            let ws = Workspace { root: PathBuf::from("/"), checkpoints_dir: PathBuf::new() };
-            let ok = match ws.to_relative(Path::new(raw)) {
+            let ws = kani_workspace();
+            let ok = match ws.to_relative(Path::new($input)) {
                 Ok(p) => {
                     core::mem::forget(p);
                     true
@@ -72,17 +67,25 @@ macro_rules! c13_to_relative {
                     false
                 }
             };
-            let esc = path_escapes(&b);
-            kani::cover!(ok, "a path is accepted");
-            kani::cover!(esc, "an escaping path is generated");
-            if esc {
+            if $escapes {
                 assert!(!ok, "checkpoint path resolver accepted a path with a `..` segment");
+            } else {
+                assert!(ok, "checkpoint path resolver refused a legal path inside the root");
             }
+            kani::cover!(true, "decided");
             core::mem::forget(ws);
         }
     };
 }
-c13_to_relative!(c13_ws_to_relative_len2, 2, 6);
+c13_torel_shape!(c13_ws_torel_dotdot, "..", true);
+c13_torel_shape!(c13_ws_torel_dotdot_x, "../x", true);
+c13_torel_shape!(c13_ws_torel_a_dotdot_dotdot, "a/../..", true);
+c13_torel_shape!(c13_ws_torel_dot_dotdot, "./..", true);
+c13_torel_shape!(c13_ws_torel_abs_root_dotdot, "/r/../x", true);
+c13_torel_shape!(c13_ws_torel_abs_root_a_dotdot2, "/r/a/../../x", true);
+c13_torel_shape!(c13_ws_torel_abs_outside, "/x", true);
+c13_torel_shape!(c13_ws_torel_rel_ok, "a/b", false);
+c13_torel_shape!(c13_ws_torel_abs_ok, "/r/a", false);
 
 #[kani::proof]
 fn c00_setup_probe() {
